@@ -1,3 +1,67 @@
-(* placeholder until the loop theorems are in: keeps the build cone of the SSA models *)
-From BS Require Import Base.Arith Model.SSA.
-Theorem C06_placeholder : True. Proof. exact I. Qed.
+(* C06 — Every stochastic trajectory is a feasible reaction path. *)
+From Coq Require Import ZArith Reals List Bool Arith.
+From BS Require Import Base.Arith Model.Term Model.Propensity Model.Interface Model.Rules Model.Random Model.SSA
+                       Spec.RateLaws Proofs.RateProofs Proofs.SSAProofs Proofs.SSAReal Proofs.FeasibleProofs Proofs.BuilderProofs.
+Import ListNotations.
+
+(* For every network (any size), stream, fuel and grid, any arithmetic (so also the doubles that
+   are run), plain or safe interface, no rules: the reported rows are linked by reachability —
+   each is obtained from the previous one (the first from x0) by firing finitely many reactions,
+   each adding one column of S + Sd. *)
+Theorem C06_rows_are_paths :
+  forall F (A : Arith F) (s : sim F), sm_rules s = [] ->
+  forall fuel ts u pos st, ssa_simulate A fuel s ts u pos = Done st -> chain A s (sm_x0 s) (ss_rows st).
+Proof. exact @ssa_rows_are_paths. Qed.
+
+(* Over the reals: every linear conservation law of the network holds at every reported row,
+   and integer initial counts stay integer. *)
+Theorem C06_conservation :
+  forall (s : sim R) w, conserved s w -> length (si_S (sm_if s)) = length (si_Sd (sm_if s)) ->
+  forall rows from, length from = length (si_S (sm_if s)) -> chain ArithR s from rows ->
+  Forall (fun row => dot w row = dot w from) rows.
+Proof. exact chain_conserves. Qed.
+
+Theorem C06_integrality :
+  forall (s : sim R) rows from, Forall is_int from -> chain ArithR s from rows -> Forall (Forall is_int) rows.
+Proof. exact chain_int. Qed.
+
+(* A state whose total propensity is zero persists to the end and consumes no further draw. *)
+Theorem C06_absorbing :
+  forall F (A : Arith F) (s : sim F), sm_rules s = [] ->
+  forall fuel u st st', dead A s (ss_x st) (ss_p st) -> ssa_loop A fuel s u st = Done st' ->
+  ss_x st' = ss_x st /\ ss_pos st' = ss_pos st /\ exists k, ss_rows st' = ss_rows st ++ repeat (ss_x st) k.
+Proof. exact @ssa_absorbing. Qed.
+
+(* Safe mode: whatever the rate law, the reaction selected to fire has its full complement of
+   reactants (and the requirement covers what the firing removes, C01/InterfaceProofs). *)
+Theorem C06_safe_never_starves :
+  forall (si : simif R) m x V t u0, (m = Stoch \/ m = StochVol) ->
+  let props := compute_safe ArithR si m x V t in
+  (0 < sumR props)%R -> (0 < u0 <= 1)%R ->
+  exists k : nat, sd_scan ArithR props (u0 * sumR props)%R 0%R 0%Z = Z.of_nat k /\
+                  (k < length (si_props si))%nat /\ short ArithR x (need_row si k) = false.
+Proof. exact safe_fired_not_short. Qed.
+
+Theorem C06_requirement_sufficient :
+  forall a d, (a < 0 \/ d < 0)%Z ->
+  (0 < need_amount a d)%Z /\ (- (a + d) <= need_amount a d)%Z /\ (- a <= need_amount a d)%Z.
+Proof. exact Proofs.InterfaceProofs.need_amount_sufficient. Qed.
+
+(* Mass action: a reaction with positive stochastic propensity at an integer state has every
+   reactant present in its multiplicity, so firing it cannot make a count negative. *)
+Theorem C06_massaction_supplied :
+  forall k rs x (cnt : nat -> nat), (forall s, rget x s = INR (cnt s)) -> ma_stoch k rs x <> 0%R ->
+  forall s, In s rs -> (count_occ Nat.eq_dec rs s <= cnt s)%nat.
+Proof. exact massaction_positive_means_supplied. Qed.
+
+(* The delay-capable and volume simulators share record / fire / deliver with this loop; their
+   lattice statement is not mechanised (C06_partial): it is covered by the stream replay and the
+   integer-programme oracle of the harness. *)
+
+Print Assumptions C06_rows_are_paths.
+Print Assumptions C06_conservation.
+Print Assumptions C06_integrality.
+Print Assumptions C06_absorbing.
+Print Assumptions C06_safe_never_starves.
+Print Assumptions C06_requirement_sufficient.
+Print Assumptions C06_massaction_supplied.
